@@ -146,6 +146,10 @@ def gen_spec(rng: random.Random, max_nodes: int = 5, tie_p: float = 0.3, overrun
         exp = None
         if d[0] == "mix" or rng.random() < 0.5:
             exp = _r6(min(dist_max(d), per) * rng.choice([1.0, 0.5])) if d[0] != "det" else d[1]
+        if tie and rng.random() < 0.35:
+            # over-estimated expected delay on a grid that keeps exact ties possible: messages arrive earlier than expected, and the expected
+            # arrival can coincide exactly with a step start (the boundary of the buffered-jitter policy)
+            exp = _r6(min(per, d[1] + per * rng.choice([0.25, 0.5, 0.75])))
         conns.append(dict(dst=a, src=b, blocking=rng.random() < 0.4, skip=skip or rng.random() < 0.1,
                           jitter=rng.choice(["L", "L", "B"]), window=rng.randint(1, 4) if rng.random() < 0.93 else rng.randint(5, 8), dist=d, delay=exp))
     for i in range(n):
@@ -257,9 +261,23 @@ def _lookahead_excess(spec) -> Optional[str]:
         u, v = c["dst"], c["src"]
         if u != v and nx.has_path(B, u, v):
             ph = ph or expected_phases(spec)
-            if spec["nodes"][u]["rate"] * (ph[v] - ph[u]) > NUM_TOKENS - 4 + 1e-9:
+            # (the calibrated deterministic chain family may go up to its measured limit, `lookahead_bound`; everything else keeps 4 ticks of margin)
+            if spec["nodes"][u]["rate"] * (ph[v] - ph[u]) > spec.get("lookahead_bound", NUM_TOKENS - 4) + 1e-9:
                 return "rule9: look-ahead of num_tokens output timestamps too short for a blocking path back into a non-blocking input"
     return None
+
+
+def lookahead_chain(R: float, r: float, hops: int, dfrac: float, adv: bool = False) -> dict:
+    """Directed family used to calibrate rule 9: a fast supervisor n0 (rate R), a blocking chain of `hops` slower nodes (rate r, deterministic
+    computation delay dfrac / r) and a skipped non-blocking connection from the last one back to n0. x = R * phase(last) is the number of
+    output timestamps n0 has to announce before the first one comes back."""
+    nodes = [dict(name="n0", rate=R, dist=["det", round(0.2 / R, 6)], delay=None, sched="P", advance=False, jit=True)]
+    conns = []
+    for i in range(1, hops + 1):
+        nodes.append(dict(name=f"n{i}", rate=r, dist=["det", round(dfrac / r, 6)], delay=None, sched="P", advance=adv and i == hops, jit=True))
+        conns.append(dict(dst=i, src=i - 1, blocking=True, skip=False, jitter="L", window=1, dist=["det", 0.0], delay=None))
+    conns.append(dict(dst=0, src=hops, blocking=False, skip=True, jitter="L", window=1, dist=["det", 0.0], delay=None))
+    return dict(nodes=nodes, conns=conns, sup=0, tie=False, open_loop=False)
 
 
 def in_S(spec) -> Optional[str]:
